@@ -316,7 +316,9 @@ def _softmax_batch_rule(
             None,
         )
 
-    rank = x.ndim
+    # ``axis`` is the axis of the UNBATCHED operand: canonicalise it against the
+    # per-example rank, not against the rank of the batched array.
+    rank = x.ndim - (1 if x_bdim is not None else 0)
     canon_axis = axis if axis >= 0 else axis + rank
     if canon_axis < 0 or canon_axis >= rank:
         raise ValueError("Invalid axis for softmax batching rule")
@@ -326,14 +328,9 @@ def _softmax_batch_rule(
     if where is not None and where_bdim is not None and where_bdim != 0:
         where = jnp.moveaxis(where, where_bdim, 0)
 
-    if x_bdim is None:
-        axis_body = canon_axis
-    elif canon_axis == x_bdim:
-        axis_body = 0
-    elif canon_axis < x_bdim:
-        axis_body = canon_axis
-    else:
-        axis_body = canon_axis - 1
+    # the batch axis has been moved to the front and is consumed by ``jax.vmap``
+    # below, so the body sees the per-example operand and its original axis
+    axis_body = canon_axis
 
     in_axes: tuple[int | None, ...] = (0 if x_bdim is not None else None,)
     if has_where:
